@@ -395,4 +395,15 @@ def oracleC10 (op : List String) (o : Obs) : Verdict :=
     | some true => if o.cls = "ok" then .pass else .fail "accept-rejects-representable" "representable content was refused"
     | some false => if o.cls = "rej" then .pass else .fail "accept-unrepresentable" "content that is not representable was accepted"
 
+/-! ### C15 purity (the part visible per op): a returned barcode is a snapshot, the input is not modified -/
+
+def oracleC15 (op : List String) (o : Obs) : Verdict :=
+  match op with
+  | "mut" :: _ =>
+    if o.cls ≠ "ok" then .na
+    else if o.get "input" ≠ "1" then .fail "purity-input" "the encoder modified the caller's buffer"
+    else if o.get "stable" ≠ "1" then .fail "purity-alias" "the barcode changed when the input buffer was overwritten afterwards"
+    else .pass
+  | _ => if o.cls = "ok" ∨ o.cls = "rej" ∨ o.cls = "panic" then .pass else .fail "purity-crash" o.cls
+
 end BV.Oracle
